@@ -303,6 +303,7 @@ def run(ctx, prog, res):
     rule_r9(prog, res)
     rule_r10(prog, res)
     rule_r11(prog, res)
+    rule_r12(ctx, prog, res)
 
 
 def _or_roots(f, op, names, depth=0):
@@ -473,3 +474,47 @@ def rule_r11(prog, res):
                           "%s merges two optional schedules of a day with `%s` and no sibling branch overlays them when both exist: the second one (a spill from yesterday, or this rule's own contribution) is dropped whenever the first exists - e.g. `Su 10:00-12:00; Sa 22:00-02:00` is closed on Sunday 01:00" % (f.id, cal.get("name")), lib.where_of(f, t))
     n_add = sum(1 for fn in roots for fid in prog.with_closures(fn.id) for _, t in prog.fns[fid].calls() if flow.call_name(t).endswith("Schedule::addition"))
     r11.check(n_add >= 2, {"first_wins_merges": n, "overlays": n_add}, "C01.R11:FLOOR", "FLOOR: %d overlays (Schedule::addition) of day schedules found in the day evaluation (expected the rule fold and today/yesterday)" % n_add)
+
+
+def rule_r12(ctx, prog, res):
+    r12 = res.rule("C01.R12", "weekday selectors (`Mo-Fr`, `Fr-Mo`, `Mo[1]`, `Su[-1]`, `Mo[1] +1 day`): a day matches iff the day `offset` days before it has a weekday inside the (wrapping, inclusive) range and is the selected n-th such weekday of its month from the start or from the end. WeekDayRange::filter (with wrapping_contains and count_days_in_month) is extracted per path from MIR and evaluated against this reading for all 49 ranges, offsets -1..=2, 12 position tables (all, each single position from the start / from the end, first+last) and every day of a 28-, 29-, 30- and 31-day month (exhaustive in the range and the day; small scope in offsets and tables)")
+    import peval
+    WD = "opening_hours_syntax::rules::day::WeekDayRange"
+    filt = prog.impl_method_one("DateFilter", "filter", self_adt=WD)
+    ev = peval.Evaluator(prog)
+    thorough = ctx.tier == "thorough"
+    T, F = [True] * 5, [False] * 5
+    one = lambda i: [j == i for j in range(5)]
+    masks = [(T, T)] + [(one(i), F) for i in range(5)] + [(F, one(i)) for i in range(5)] + [(one(0), one(0))]
+    wds = range(7) if thorough else (0, 2, 4, 6)
+    offsets = (-1, 0, 1, 2) if thorough else (0, 1)
+    days = [(y, m, d) for (y, m) in ((2020, 2), (2021, 2), (2021, 4), (2021, 5)) for d in range(1, peval.days_in_month(y, m) + 1)]
+    NAMES = ["Mo", "Tu", "We", "Th", "Fr", "Sa", "Su"]
+    n = 0
+    bad = None
+    try:
+        for s in wds:
+            for e in wds:
+                for off in offsets:
+                    for a, b in masks:
+                        sel = ("enum", "Fixed", {"range": ("range", s, e), "offset": off, "nth_from_start": a, "nth_from_end": b})
+                        for date in days:
+                            n += 1
+                            got = bool(ev.run(filt, [sel, date, None]))
+                            d2 = peval.from_ordinal(peval.ordinal(date) - off)
+                            wd = peval.weekday(d2)
+                            in_range = s <= wd <= e if s <= e else (wd >= s or wd <= e)
+                            want = in_range and (a[(d2[2] - 1) // 7] or b[(peval.days_in_month(d2[0], d2[1]) - d2[2]) // 7])
+                            if got != want and bad is None:
+                                bad = (s, e, off, a, b, date, got, want)
+    except peval.Unmodelled as ex:
+        r12.fail("C01.R12:unmodelled", "WeekDayRange::filter cannot be evaluated from its MIR any more (%s): not decided, failing closed" % ex, lib.where_of(filt))
+        return
+    msg = ""
+    if bad:
+        s, e, off, a, b, date, got, want = bad
+        pos = "" if (a, b) == (T, T) else "[%s]" % ",".join([str(i + 1) for i in range(5) if a[i]] + [str(-(i + 1)) for i in range(5) if b[i]])
+        msg = "`%s%s%s%s` on %04d-%02d-%02d (a %s): the filter says %s, the documented reading says %s" % (
+            NAMES[s], "" if s == e else "-" + NAMES[e], pos, "" if off == 0 else " %+d day" % off, *date, NAMES[peval.weekday(date)], got, want)
+    r12.check(bad is None, {"ranges": len(list(wds)) ** 2, "offsets": list(offsets), "position_tables": len(masks), "days": len(days), "evaluations": n}, "C01.R12:weekday", msg, lib.where_of(filt))
+    r12.floor(1)
